@@ -12,7 +12,7 @@ CHECKS = {
 }
 CHECKS.update({
     "C04": {
-        "families": ("vaa",),
+        "families": ("vaa", "processor"),
         "level": "proof",
         "technique": "Lean 4 theorems (layout, injectivity, header independence) over a hand model of serializeBody/Marshal tied by differential run, plus contract offsets re-extracted from Solidity/Ralph source",
         "text": ("serializeBody's big-endian layout, its injectivity on in-range bodies (two messages differing in any field never share a "
